@@ -33,7 +33,7 @@ SPEC = {
                     "AddErrorToValidation: an argument that is not and does not wrap a ValidationError counts as one error message (its Error() text) under the empty key; whether the first argument is mutated or returned is not specified and not asserted"],
 }
 META = {
-  "text": "Coq theorems (Props/C20.v, 10, closed under the global context) about an executable HEAP model of errors/validationError.go (maps are shared objects, so that 'a read writes into the receiver' is expressible): for every well-formed tree in every heap (every tree the three constructors can build, any map nil/empty/shared) GetFlatErrorMap/GetFlatWarningMap return a FRESH map holding exactly the specified multiset of (dotted key, message) pairs - errors and warnings apart, characterised by paths, independent of iteration order - and change no existing map; Error() writes one ERROR:/WARNING: line per flat message, each exactly once; every sequence of reads runs without panic, leaves every map and the receiver's value unchanged and answers each read as specified by the value before the sequence (hence repeatable); AddErrorToValidation never panics on any pair of nil / nil-pointer / plain / ValidationError / wrapped arguments (even sharing maps or identical) and its result is well formed and contains the flat errors and flat warnings of both arguments as multisets. Pinned defects are refuted in Findings/VErr.v by vm_compute witnesses, which are also the harness corpus. The model is tied to /repo on every run by building trees through the public constructors, reading through the public API, and comparing in Coq (monitor = the property on the observations; correspondence = the model's prediction including nil-ness, key sets and line format).",
+  "text": "Coq theorems (Props/C20.v, 11, closed under the global context) about an executable HEAP model of errors/validationError.go (maps are shared objects, so that 'a read writes into the receiver' is expressible): for every well-formed tree in every heap (proved to include every nesting of calls of the three constructors, any map nil/empty/shared) GetFlatErrorMap/GetFlatWarningMap return a FRESH map holding exactly the specified multiset of (dotted key, message) pairs - errors and warnings apart, characterised by paths, independent of iteration order - and change no existing map; Error() writes one ERROR:/WARNING: line per flat message, each exactly once; every sequence of reads runs without panic, leaves every map and the receiver's value unchanged and answers each read as specified by the value before the sequence (hence repeatable); AddErrorToValidation never panics on any pair of nil / nil-pointer / plain / ValidationError / wrapped arguments (even sharing maps or identical) and its result is well formed and contains the flat errors and flat warnings of both arguments as multisets. Pinned defects are refuted in Findings/VErr.v by vm_compute witnesses, which are also the harness corpus. The model is tied to /repo on every run by building trees through the public constructors, reading through the public API, and comparing in Coq (monitor = the property on the observations; correspondence = the model's prediction including nil-ness, key sets and line format).",
   "design_ref": "DESIGN.md section 7, C20; section 6 row F12",
   "note": "Trusted: Coq kernel + vm_compute; the hand-written model (validated by this run's cases only); errors.As/reflect by contract; slice backing-array aliasing is checked by the harness only (arena mode), not proved. Deviation from DESIGN: a heap of map objects instead of 'functions return the post-state of the receiver' (stronger: sharing between nodes/arguments is covered); AddErrorToValidation merges the second argument through its flat maps only (children of the second argument are not re-attached), the result is nil when both arguments are nil.",
   "technique": "Coq proof (heap model, frame/agree invariants, multiset inclusion) + differential correspondence (vm_compute) against the Go code",
